@@ -16,8 +16,11 @@
 #include <openssl/rsa.h>
 #include <openssl/bn.h>
 #include <openssl/err.h>
+#include <openssl/core_names.h>
+#include <openssl/param_build.h>
+#include <openssl/objects.h>
 
-#define NKEY 256
+#define NKEY 8192
 static EVP_PKEY *keys[NKEY];
 
 static unsigned char *unhex(const char *s, size_t *n)
@@ -131,14 +134,98 @@ out:
 	return ok;
 }
 
+/* fromdata rsa PSS N E [D P Q DP DQ QI] | fromdata ec CRV X Y [D] | fromdata okp CRV PRIV BYTES
+ * -> "<bits>" if EVP_PKEY_fromdata builds a key from this material, "none" otherwise.
+ * Written directly against the OpenSSL 3 API (own parameter construction). */
+static void do_fromdata(int n, char **t)
+{
+	OSSL_PARAM_BLD *bld = OSSL_PARAM_BLD_new();
+	OSSL_PARAM *params = NULL;
+	EVP_PKEY_CTX *ctx = NULL;
+	EVP_PKEY *pk = NULL;
+	BIGNUM *bns[10] = {0};
+	unsigned char *bufs[10] = {0};
+	unsigned char *pub = NULL;
+	int nb = 0, ok = 0;
+	size_t l;
+	if (!strcmp(t[1], "rsa") && n >= 5) {
+		static const char *names[] = {OSSL_PKEY_PARAM_RSA_N, OSSL_PKEY_PARAM_RSA_E, OSSL_PKEY_PARAM_RSA_D,
+			OSSL_PKEY_PARAM_RSA_FACTOR1, OSSL_PKEY_PARAM_RSA_FACTOR2, OSSL_PKEY_PARAM_RSA_EXPONENT1,
+			OSSL_PKEY_PARAM_RSA_EXPONENT2, OSSL_PKEY_PARAM_RSA_COEFFICIENT1};
+		ctx = EVP_PKEY_CTX_new_from_name(NULL, atoi(t[2]) ? "RSA-PSS" : "RSA", NULL);
+		for (int i = 3; i < n && i < 11; i++) {
+			unsigned char *b = unhex(t[i], &l);
+			bns[nb] = BN_bin2bn(b, (int)l, NULL);
+			free(b);
+			OSSL_PARAM_BLD_push_BN(bld, names[i - 3], bns[nb]);
+			nb++;
+		}
+	} else if (!strcmp(t[1], "ec") && n >= 5) {
+		size_t cl, xl, yl;
+		unsigned char *crv = unhex(t[2], &cl), *x = unhex(t[3], &xl), *y = unhex(t[4], &yl);
+		char name[300];
+		snprintf(name, sizeof name, "%.*s", (int)(cl > 255 ? 255 : cl), crv);
+		const char *oname = !strcmp(name, "P-256") ? "prime256v1" : !strcmp(name, "P-384") ? "secp384r1" :
+			!strcmp(name, "P-521") ? "secp521r1" : name;
+		int nid = OBJ_sn2nid(oname);
+		EC_GROUP *g = EC_GROUP_new_by_curve_name(nid);
+		ctx = EVP_PKEY_CTX_new_from_name(NULL, "EC", NULL);
+		if (g) {
+			EC_POINT *pt = EC_POINT_new(g);
+			BIGNUM *bx = BN_bin2bn(x, (int)xl, NULL), *by = BN_bin2bn(y, (int)yl, NULL);
+			if (EC_POINT_set_affine_coordinates(g, pt, bx, by, NULL)) {
+				size_t pl = EC_POINT_point2buf(g, pt, POINT_CONVERSION_UNCOMPRESSED, &pub, NULL);
+				OSSL_PARAM_BLD_push_utf8_string(bld, OSSL_PKEY_PARAM_GROUP_NAME, oname, 0);
+				OSSL_PARAM_BLD_push_octet_string(bld, OSSL_PKEY_PARAM_PUB_KEY, pub, pl);
+				if (n >= 6) {
+					unsigned char *d = unhex(t[5], &l);
+					bns[nb] = BN_bin2bn(d, (int)l, NULL);
+					free(d);
+					OSSL_PARAM_BLD_push_BN(bld, OSSL_PKEY_PARAM_PRIV_KEY, bns[nb]);
+					nb++;
+				}
+				ok = 1;
+			}
+			BN_free(bx); BN_free(by); EC_POINT_free(pt); EC_GROUP_free(g);
+		}
+		free(crv); free(x); free(y);
+		if (!ok) { printf("none"); goto out; }
+		ok = 0;
+	} else if (!strcmp(t[1], "okp") && n >= 5) {
+		size_t cl;
+		unsigned char *crv = unhex(t[2], &cl);
+		int priv = atoi(t[3]);
+		bufs[0] = unhex(t[4], &l);
+		ctx = EVP_PKEY_CTX_new_from_name(NULL, (cl == 7 && !memcmp(crv, "Ed25519", 7)) ? "ED25519" :
+			(cl == 5 && !memcmp(crv, "Ed448", 5)) ? "ED448" : "nosuch", NULL);
+		OSSL_PARAM_BLD_push_octet_string(bld, priv ? OSSL_PKEY_PARAM_PRIV_KEY : OSSL_PKEY_PARAM_PUB_KEY, bufs[0], l);
+		free(crv);
+	} else { printf("badop"); goto out; }
+	params = OSSL_PARAM_BLD_to_param(bld);
+	if (ctx && params && EVP_PKEY_fromdata_init(ctx) > 0 && EVP_PKEY_fromdata(ctx, &pk, EVP_PKEY_KEYPAIR, params) > 0 && pk) {
+		size_t bits = 0;
+		int priv = (!strcmp(t[1], "rsa") && n > 5) || (!strcmp(t[1], "ec") && n >= 6) || (!strcmp(t[1], "okp") && atoi(t[3]));
+		BIO *bio = BIO_new(BIO_s_mem());
+		int pem = priv ? PEM_write_bio_PrivateKey(bio, pk, NULL, NULL, 0, NULL, NULL) : PEM_write_bio_PUBKEY(bio, pk);
+		BIO_free(bio);
+		EVP_PKEY_get_size_t_param(pk, OSSL_PKEY_PARAM_BITS, &bits);
+		printf(pem ? "%zu" : "%zu:nopem", bits);
+	} else printf("none");
+out:
+	EVP_PKEY_free(pk); EVP_PKEY_CTX_free(ctx); OSSL_PARAM_free(params); OSSL_PARAM_BLD_free(bld);
+	for (int i = 0; i < 10; i++) { BN_free(bns[i]); free(bufs[i]); }
+	OPENSSL_free(pub);
+	ERR_clear_error();
+}
+
 int main(void)
 {
 	char *line = NULL;
 	size_t cap = 0;
 	while (getline(&line, &cap, stdin) > 0) {
-		char *t[8] = {0};
+		char *t[16] = {0};
 		int n = 0;
-		for (char *p = strtok(line, " \n"); p && n < 8; p = strtok(NULL, " \n")) t[n++] = p;
+		for (char *p = strtok(line, " \n"); p && n < 16; p = strtok(NULL, " \n")) t[n++] = p;
 		if (n == 0) { printf("\n"); fflush(stdout); continue; }
 		if (!strcmp(t[0], "key") && n >= 3) {
 			int id = atoi(t[1]);
@@ -165,6 +252,11 @@ int main(void)
 			if (id >= 0 && id < NKEY && keys[id] && a && do_sign(keys[id], a, m, ml, &o, &ol)) { puthex(o, ol); free(o); }
 			else printf("err");
 			free(m);
+		} else if (!strcmp(t[0], "eq") && n >= 3) {
+			int a = atoi(t[1]), b = atoi(t[2]);
+			printf("%d", (a >= 0 && a < NKEY && b >= 0 && b < NKEY && keys[a] && keys[b]) ? (EVP_PKEY_eq(keys[a], keys[b]) == 1) : 0);
+		} else if (!strcmp(t[0], "fromdata") && n >= 3) {
+			do_fromdata(n, t);
 		} else if (!strcmp(t[0], "bits") && n >= 2) {
 			int id = atoi(t[1]);
 			if (id >= 0 && id < NKEY && keys[id]) printf("%d %d", EVP_PKEY_bits(keys[id]), EVP_PKEY_base_id(keys[id]));
